@@ -437,6 +437,10 @@ class Assembler:
                 raise AnchorError('R13: arity mismatch inlining %s into %s' % (name, qual))
             hb = transform_common(it.body, {}, is_async)
             hm = rsparse.mask(hb)
+            if re.search(r'\breturn\b', hm):
+                import chainrw
+                hb = chainrw.eliminate_guard_returns(hb)      # guard-style early returns -> if/else
+                hm = rsparse.mask(hb)
             if re.search(r'\breturn\b', hm) or '?' in hm:
                 raise AnchorError('R13: helper %s contains return/?: cannot inline into %s' % (name, qual))
             lets = ''.join('let %s = %s; ' % (pt, a) for pt, a in zip(pats, args))
